@@ -809,6 +809,7 @@ class NumEnv:
         self.contract, self.inst = contract, inst
         self.leaves, self.treedef, self.arr_idx, self.in_sids = leaves, treedef, arr_idx, in_sids
         self.fn, self.out_tree, self.out_static = fn, out_tree, out_static
+        self.cache = {}
 
     def point(self, seed):
         rng = np.random.default_rng(seed)
@@ -1273,8 +1274,15 @@ def triage(ob, numenv: NumEnv, seed, npoints=6, detail=None, requires=(), assump
         model_error = repr(e)[:300]
     try:
         for k in range(npoints):
-            arrays = numenv.point(seed + 77 * (k + 1))
-            env = numenv.env_from(arrays, seed + k)
+            # the sample points are the same for every obligation of a unit: evaluate the kernels natively once
+            ck = ("triage", seed + 77 * (k + 1), seed + k)
+            cached = numenv.cache.get(ck)
+            if cached is None:
+                arrays = numenv.point(seed + 77 * (k + 1))
+                env = numenv.env_from(arrays, seed + k)
+                numenv.cache[ck] = (arrays, env)
+            else:
+                arrays, env = cached
             if ob["path"] and not all(numenv.evalb(b, env) for b in ob["path"]):
                 continue
             if not _requires_hold(requires, numenv, env):
